@@ -126,7 +126,7 @@ func main() {
 			compileSrc(fmt.Sprintf("wide%d_%d", w[0], w[1]), cfgx.WideProgram(w[0], w[1]))
 		}
 		if *nwide > 0 {
-			for _, w := range cfgx.WideCorners() {
+			for _, w := range cfgx.WideCorners(*nwide >= 500) {
 				compileSrc(w.ID, w.Src)
 			}
 		}
